@@ -46,9 +46,9 @@ func (p Prog) clone() Prog {
 var entryTokens = []string{
 	"a", "b", "c", "ab", "|", "(", "(?:", ")", "[", "]", "a-c", "*", "+", "?", "{2}", ".", "^", "$",
 	`\.`, `\\`, `\x5c`, `"`, `\"`, `\s`, `\t\n\f\r `, " ", "!-~", `\x00`, "é", `\b`,
-	`\(?i:`,    // literal text that looks like an engine flag group
-	"-~", // after the Perl white-space class: `[\t\n\f\r -~]`, the blank starts a range
-	"%",  // a formatting verb for whoever prints the result with a printf-style function
+	`\(?i:`, // literal text that looks like an engine flag group
+	"-~",    // after the Perl white-space class: `[\t\n\f\r -~]`, the blank starts a range
+	"%",     // a formatting verb for whoever prints the result with a printf-style function
 }
 
 // upperTokens: the upper-case escape classes with what they interact with (case folding under the i flag, class
